@@ -108,6 +108,21 @@ def world_include(r, wid):
                                               ", ".join(map(str, ms)))])
         else:
             items.append(["Sub | [%s]" % ", ".join(map(str, ms))])
+    if r.random() < 0.5:
+        # the same world delivered as files: main loaded by (relative) path from another
+        # working directory, include spelled relative to the including file, and a second
+        # library nested inside the first
+        inner = ["name Inner", "version 1.0", ""] + ["Kgate(%s) | %d" % (G.num(r), m) for m in r.sample([2, 9, 11, 40], 2)]
+        files["lib/deep/inner.xbb"] = "\n".join(inner) + "\n"
+        sub = files["lib/sub.xbb"].split("\n")
+        sub.insert(2, 'include "deep/inner.xbb"')
+        sub.append("Inner | [%d, %d]" % (modes[1], modes[0]))
+        files["lib/sub.xbb"] = "\n".join(sub) + "\n"
+        head2 = ["name Main", "version 1.0", 'include "../lib/sub.xbb"']
+        script = {"head": head2, "items": items}
+        files["app/main.xbb"] = G.render(script)
+        return {"id": wid, "kind": "include_files", "files": files, "path": "app/main.xbb",
+                "style": r.choice(["rel", "abs"]), "cwd": r.choice(["other", "app", ""]), "script": script}
     return {"id": wid, "kind": "include", "files": files, "script": {"head": head, "items": items}}
 
 
